@@ -7,6 +7,7 @@ instances of the same definitions, or hold for every instance.
 -/
 import Mahotas.Proofs.C16
 import Mahotas.Proofs.C16Otsu
+import Mahotas.Proofs.C16Rc
 open Mahotas Mahotas.C16
 
 /-- **soft_threshold = the statement (integers).** For `tval ≥ 0` the three numpy statements
@@ -66,6 +67,40 @@ theorem C16_otsu_first_argmax (img : List Nat) (ignoreZeros : Bool) :
     firstArgmax (sigmaAll hist) = Ts := by
   have h := otsuGen_first_argmax' (histOf img ignoreZeros)
   exact ⟨h.1, h.2.1, h.2.2, firstArgmax_sigmaAll _⟩
+
+/-- **rc obeys the Riddler–Calvard stopping rule and stays between the occurring levels.** For every
+histogram with an occupied bin (an image, bin 0 cleared when zeros are ignored and some pixel is
+non-zero), with `lo`/`hi` the smallest/largest occupied level (`hist[lo] ≠ 0`, nothing below;
+`hist[hi] ≠ 0`, nothing above) and `m(t)` the midpoint of the mean grey levels of the classes
+`{≤ t}` and `{> t}`, the model of `rc` run over the exact rationals returns: the single level when
+`lo = hi`; otherwise `m(t*)` for the FIRST `t* ∈ [lo, hi)` with `m(t*) ≤ t*+1` (all earlier
+`t ∈ [lo, t*)` have `m(t) > t+1`); and in all cases a value in `[lo, hi]`. The oracle `rcSpec` that
+the check compares the real double with is this same value. -/
+theorem C16_rc_rule (img : List Nat) (ignoreZeros : Bool)
+    (hne : ∃ v ∈ histOf img ignoreZeros, v ≠ 0) :
+    let hist := histOf img ignoreZeros
+    let r := rcGen ratCast hist
+    let lo := loOf hist
+    let hi := lastNonzero hist
+    (hOf hist lo ≠ 0 ∧ ∀ i, i < lo → hOf hist i = 0) ∧
+    (hOf hist hi ≠ 0 ∧ ∀ i, hi < i → hOf hist i = 0) ∧
+    (lo = hi → r = (hi : Rat)) ∧
+    (lo < hi → ∃ ts, lo ≤ ts ∧ ts < hi ∧ r = rcMid hist ts ∧ rcMid hist ts ≤ (ts : Rat) + 1 ∧
+      ∀ t, lo ≤ t → t < ts → (t : Rat) + 1 < rcMid hist t) ∧
+    ((lo : Rat) ≤ r ∧ r ≤ (hi : Rat)) ∧
+    (rcSpec hist).1 = r := by
+  intro hist r lo hi
+  have h := rcGen_main hist hne
+  exact ⟨loOf_spec hist hne, lastNonzero_spec hist hne, h.1, h.2.1, h.2.2, rcSpec_fst hist hne⟩
+
+/-- `rc` of the image is `rcGen` of its histogram, except that with `ignore_zeros` an all-zero
+image returns 0 (`if hist[0] == img.size: return 0`). -/
+theorem C16_rc_of_image (img : List Nat) (ignoreZeros : Bool) :
+    rcImg ratCast img ignoreZeros =
+      if ignoreZeros && (fullhistogram img).getD 0 0 == img.length then 0
+      else rcGen ratCast (histOf img ignoreZeros) := by
+  unfold rcImg
+  split <;> simp [ratCast]
 
 /-- **Bernsen rule.** At every pixel whose (reflect-extended) neighbourhood is non-empty the model
 of `gbernsen` returns: with `M`/`m` the largest/smallest neighbourhood value (both attained),
